@@ -276,6 +276,15 @@ class Ctx:
         self.rundir = os.path.join(BUILD, 'run', '%s-%s-%d' % (pid, tier, os.getpid()))
         shutil.rmtree(self.rundir, ignore_errors=True)
         os.makedirs(self.rundir)
+        # stale run directories (failed runs keep theirs for inspection): drop those older than 30 minutes
+        try:
+            base = os.path.join(BUILD, 'run')
+            for d in os.listdir(base):
+                pth = os.path.join(base, d)
+                if pth != self.rundir and time.time() - os.path.getmtime(pth) > 1800:
+                    shutil.rmtree(pth, ignore_errors=True)
+        except OSError:
+            pass
         self.violations = []      # dicts
         self.known_hits = []
         self.obligations = []     # (name, ok, detail)
@@ -333,6 +342,51 @@ class Ctx:
             rc, out = _run(['coqchk', '-silent', '-o', '-Q', THEORIES, 'BF', 'BF.Props.' + self.pid], cwd=COQ, timeout=1800)
             okc = (rc == 0)
             self.obligation('coqchk BF.Props.%s' % self.pid, okc, ' '.join(out.split())[-400:])
+        return ok_all
+
+    # ---- (G) generated layer ------------------------------------------------------------------
+    def check_generated(self, topics):
+        """regenerate Gen.v from /repo's current source, compile it and re-prove the bridge lemmas of the given topics
+        (files coq/gen/GenBridge_<topic>.v).  A failure is an unproved obligation; the box search for a concrete
+        argument on which generated and model definitions differ is appended to the detail."""
+        import translate
+        txt, problems = translate.translate(REPO)
+        gendir = os.path.join(self.rundir, 'gen')
+        os.makedirs(gendir, exist_ok=True)
+        with open(os.path.join(gendir, 'Gen.v'), 'w') as fh:
+            fh.write(txt)
+        for pr in problems:
+            self.obligation('G:translate %s' % pr.split(':')[0], False, 'translator (fail closed): ' + pr)
+        rc, out = coqc(os.path.join(gendir, 'Gen.v'), gendir, extra_q=[(gendir, 'BFGen')])
+        if rc != 0:
+            self.obligation('G:Gen.v compiles', False, out[-500:])
+            return False
+        ok_all = not problems
+        for t in topics:
+            src = os.path.join(COQ, 'gen', 'GenBridge_%s.v' % t)
+            dst = os.path.join(gendir, 'GenBridge_%s.v' % t)
+            shutil.copy(src, dst)
+            names = theorem_names(src)
+            rc, out = coqc(dst, gendir, extra_q=[(gendir, 'BFGen')])
+            if rc == 0:
+                for nm in names:
+                    self.obligation('G:BFGen.GenBridge_%s.%s (generated from source = model, for all arguments)' % (t, nm), True, 'proved')
+            else:
+                ok_all = False
+                m = _ERR_RE.search(out)
+                where = ('line %s: %s' % (m.group(2), ' '.join(m.group(3).split())[:300])) if m else out[-400:]
+                failing = None
+                if m:
+                    lines = open(dst).read().splitlines()[:int(m.group(2))]
+                    for ln in reversed(lines):
+                        mm = re.match(r'\s*Lemma\s+([\w\']+)', ln)
+                        if mm:
+                            failing = mm.group(1)
+                            break
+                for nm in names:
+                    if failing is None or nm == failing:
+                        self.obligation('G:BFGen.GenBridge_%s.%s' % (t, nm), False, 'bridge proof fails: ' + where)
+        self.extra['generated_layer'] = {'topics': list(topics), 'translator_problems': problems}
         return ok_all
 
     def obligation(self, name, ok, detail=''):
